@@ -133,11 +133,11 @@ BOUNDS = {
 }
 
 
-def svmc_args(tier, focus, faults, fault_kinds=0, **over):
+def svmc_args(tier, focus, faults, fault_kinds=0, witnesses=1, **over):
     b = dict(BOUNDS[tier])
     b.update(over)
     return ["--S", b["S"], "--K", b["K"], "--L", b["L"], "--R", b["R"], "--faults", faults,
-            "--fault-kinds", fault_kinds, "--focus", focus, "--deadline", b["deadline"]]
+            "--fault-kinds", fault_kinds, "--focus", focus, "--witnesses", witnesses, "--deadline", b["deadline"]]
 
 
 def w1_jobs(tier, configs, focus, faults, **over):
@@ -173,7 +173,7 @@ def run_svmc(prop, tier, jobs, level="model_checking", extra_assumptions=()):
 
     tot = {"states": 0, "transitions": 0, "fault_trials": 0, "dbl_fault_trials": 0,
            "boundary_edges": 0, "replays": 0, "distinct_outcomes": 0, "crashes": 0,
-           "skipped_crash_class": 0}
+           "skipped_crash_class": 0, "witnesses_checked": 0, "post_fault_states": 0}
     exhaustive = True
     samples = []
     mine, others = [], {}
@@ -224,9 +224,11 @@ def run_svmc(prop, tier, jobs, level="model_checking", extra_assumptions=()):
     for v in mine:
         j = v.pop("job")
         cmd = [j.binary.path(), "--replay", v["replay"]["history"]]
-        r = subprocess.run(cmd, stdout=subprocess.PIPE, stderr=subprocess.STDOUT, text=True)
+        env = dict(os.environ)
+        env["ASAN_OPTIONS"] = "detect_leaks=0:abort_on_error=1:allocator_may_return_null=1"
+        r = subprocess.run(cmd, stdout=subprocess.PIPE, stderr=subprocess.STDOUT, text=True, env=env, errors="replace")
         if v["crash"]:
-            ok = r.returncode not in (0, 1) or "VIOLATED" in r.stdout
+            ok = r.returncode not in (0, 1) or "VIOLATED" in r.stdout or "AddressSanitizer" in r.stdout
         else:
             ok = any(("VIOLATED" in ln and prop in ln.split("[")[0]) for ln in r.stdout.splitlines())
         if not ok:
@@ -247,6 +249,8 @@ def run_svmc(prop, tier, jobs, level="model_checking", extra_assumptions=()):
         "boundary_edges": tot["boundary_edges"],
         "history_replays": tot["replays"],
         "distinct_outcomes": tot["distinct_outcomes"],
+        "post_fault_witnesses_expanded": tot["post_fault_states"],
+        "history_independence_comparisons": tot["witnesses_checked"],
         "crashed_trials": tot["crashes"],
         "trials_skipped_same_crash_class": tot["skipped_crash_class"],
         "configurations": configs,
@@ -319,7 +323,9 @@ def plan_C05(prop, tier):
 def plan_C06(prop, tier):
     fl = ("NM", "TM", "MO", "CO") if tier == "quick" else ("NM", "TM", "MO", "MOT", "CO", "TR")
     cfgs = grid(fl, W1_NS[tier], (1,)) + grid(("TM",), (0, 2), (0,))
-    jobs = w1_jobs(tier, cfgs, G_ALL, 2)
+    # second (post-fault) witness per shape: the whole alphabet is applied again from a state that
+    # was reached through a thrown exception, and must behave like the first witness
+    jobs = w1_jobs(tier, cfgs, G_ALL, 2, witnesses=2)
     jobs += w2_jobs(tier, ("NM", "TM", "MO"), W2_PAIRS[tier], (0, 2, 7), 2)
     return run_svmc(prop, tier, jobs)
 
